@@ -5,6 +5,7 @@ Tables: BV.Gen.Commands, regenerated from bellows/ezsp/v*/commands.py on every r
 -/
 import BV.Proofs.CodecLemmas
 import BV.Gen.Commands
+import BV.Proofs.Src.Hdr
 namespace BV.Props.C07
 open BV.Codec BV.Gen.Commands
 
@@ -136,5 +137,69 @@ theorem c07_pos_kw_equiv (keys : List String) (vals : List Val) (kw : List (Stri
 example : rtOk [.uint 1, .lvbytes 1] = true ∧
     serFields [.uint 1, .lvbytes 1] [.num 7, .bytes [1, 2]] = some [7, 2, 1, 2] := by
   simp [rtOk, tailOk, TDesc.pf, serFields, ser, leBytes]
+
+
+/-! ### the frame headers over the definitions generated from bellows/ezsp/v4, v5, v8 (BV/Gen/SrcHdrV4/5/8.lean)
+
+`_ezsp_frame_tx` / `_ezsp_frame_rx` of the three classes that define them are translated from the syntax tree on every run and
+proved equal to `txHeader` / `rxHeader` (BV/Proofs/Src/Hdr.lean); which class serves which protocol version is reflection data. -/
+section Src
+open BV.Py BV.Proofs.Src.Hdr
+
+/-- transmit headers, source level: the translated code writes exactly the model's header (sequence number - masked to a byte by
+the legacy class only -, frame control, and the frame ID in the width of its format) -/
+theorem c07_src_tx_headers (h : Handler) (name : String) (id : Nat) (hl : h.cmds.lookup name = some id) (hs : h.seq < 256) :
+    (id < 256 → BV.Src.HdrV4.frame_tx name h = (.ok (txHeader .v4 (h.seq % 256) id), h)) ∧
+    (id < 256 → BV.Src.HdrV5.frame_tx name h = (.ok (txHeader .v5 h.seq id), h)) ∧
+    (id < 65536 → BV.Src.HdrV8.frame_tx name h = (.ok (txHeader .v8 h.seq id), h)) :=
+  ⟨fun hid => v4_tx h name id hl hid, fun hid => v5_tx h name id hl hid hs, fun hid => v8_tx h name id hl hid hs⟩
+
+/-- receive headers, source level: for every byte string the translated parser returns the model's (sequence, frame ID, payload),
+and raises exactly where the model has no header to read -/
+theorem c07_src_rx_headers (h : Handler) (d : List UInt8) :
+    (BV.Src.HdrV4.frame_rx d h).1.toOption = rxHeader .v4 d ∧
+    (BV.Src.HdrV5.frame_rx d h).1.toOption = rxHeader .v5 d ∧
+    (BV.Src.HdrV8.frame_rx d h).1.toOption = rxHeader .v8 d :=
+  ⟨(v4_rx h d).1, (v5_rx h d).1, (v8_rx h d).1⟩
+
+/-- the header round trip over the generated code: what `_ezsp_frame_rx` reads back from `_ezsp_frame_tx`'s bytes followed by any
+payload is the sequence number, the frame ID and the payload (all three formats) -/
+theorem c07_src_header_roundtrip (h : Handler) (name : String) (id : Nat) (p : List UInt8) (hl : h.cmds.lookup name = some id)
+    (hs : h.seq < 256) (hid : id < 256) :
+    (∀ b, BV.Src.HdrV4.frame_tx name h = (.ok b, h) → (BV.Src.HdrV4.frame_rx (b ++ p) h).1 = .ok (h.seq, id, p)) ∧
+    (∀ b, BV.Src.HdrV5.frame_tx name h = (.ok b, h) → (BV.Src.HdrV5.frame_rx (b ++ p) h).1 = .ok (h.seq, id, p)) ∧
+    (∀ b, BV.Src.HdrV8.frame_tx name h = (.ok b, h) → (BV.Src.HdrV8.frame_rx (b ++ p) h).1 = .ok (h.seq, id, p)) := by
+  have hm : h.seq % 256 = h.seq := Nat.mod_eq_of_lt hs
+  refine ⟨?_, ?_, ?_⟩
+  · intro b hb
+    rw [v4_tx h name id hl hid] at hb
+    have hb' : b = txHeader .v4 (h.seq % 256) id := by injection hb with h1; injection h1 with h2; exact h2.symm
+    subst hb'
+    simp [BV.Src.HdrV4.frame_rx, txHeader, bind, PyM.bind, PyM.lift, byteAt, pure, PyM.pure, sliceFrom, hm,
+      ofNat_toNat_eq h.seq hs, ofNat_toNat_eq id hid]
+  · intro b hb
+    rw [v5_tx h name id hl hid hs] at hb
+    have hb' : b = txHeader .v5 h.seq id := by injection hb with h1; injection h1 with h2; exact h2.symm
+    subst hb'
+    simp [BV.Src.HdrV5.frame_rx, txHeader, bind, PyM.bind, PyM.lift, byteAt, pure, PyM.pure, sliceFrom,
+      ofNat_toNat_eq h.seq hs, ofNat_toNat_eq id hid]
+  · intro b hb
+    rw [v8_tx h name id hl (by omega) hs] at hb
+    have hb' : b = txHeader .v8 h.seq id := by injection hb with h1; injection h1 with h2; exact h2.symm
+    subst hb'
+    have h1 : id % 256 = id := Nat.mod_eq_of_lt hid
+    have h2 : id / 256 = 0 := Nat.div_eq_of_lt hid
+    simp [BV.Src.HdrV8.frame_rx, txHeader, bind, PyM.bind, PyM.lift, byteAt, pure, PyM.pure, sliceFrom, u16de,
+      ofNat_toNat_eq h.seq hs, h1, h2, ofNat_toNat_eq id hid]
+
+/-- which class serves which version (reflection) is the model's `hdrOf` -/
+theorem c07_src_header_classes :
+    ∀ r ∈ BV.Gen.Accessors.definedBy, (r.2.1 = "_ezsp_frame_tx" ∨ r.2.1 = "_ezsp_frame_rx") → r.2.2 = hdrClass (hdrOf r.1) :=
+  header_classes
+
+example : BV.Src.HdrV8.frame_tx "nop" { seq := 7, cmds := [("nop", 5)] } = (.ok [7, 0, 1, 5, 0], { seq := 7, cmds := [("nop", 5)] }) := by
+  decide +kernel
+
+end Src
 
 end BV.Props.C07
